@@ -30,6 +30,42 @@ def byte_item(bs):
         return {"bytes": list(bs), "txt": [], "back": [], "err": type(e).__name__}
 
 
+class _Captured(BaseException):
+    pass
+
+
+def file_item(bs, tmpdir):
+    """the same bytes as a program FILE read by execute_vyxal under flag v (the path every byte-encoded
+    program takes): the text handed to the transpiler, converted back"""
+    import os
+    import vyxal.encoding as E
+    import vyxal.main as M
+
+    path = os.path.join(tmpdir, "prog.vy")
+    with open(path, "wb") as f:
+        f.write(bytes(bs))
+    got = {}
+    orig = M.transpile
+
+    def spy(code, *a, **k):
+        got["code"] = code
+        raise _Captured()
+
+    M.transpile = spy
+    try:
+        try:
+            M.execute_vyxal(path, "v", [])
+        except _Captured:
+            pass
+        txt = got["code"]
+        back = E.utf8_to_vyxal(txt)
+        return {"bytes": list(bs), "txt": cps(txt), "back": [ord(c) for c in back], "err": ""}
+    except BaseException as e:  # noqa: BLE001
+        return {"bytes": list(bs), "txt": [], "back": [], "err": type(e).__name__}
+    finally:
+        M.transpile = orig
+
+
 def main(tier):
     t0 = time.time()
     V = common.Verdicts(PID)
@@ -48,6 +84,21 @@ def main(tier):
         traces.append({"op": "bytes", "items": [byte_item([b1, b2]) for b2 in range(256)]})
         labels.append(("bytes2", b1))
 
+    # the file path: every single byte, every pair starting with a byte that text tools treat specially, the
+    # byte-order marks and other signatures as triples / quadruples, random longer files
+    import random
+    import tempfile
+    rr = random.Random(2020)
+    with tempfile.TemporaryDirectory() as td:
+        files = [[b] for b in range(256)]
+        files += [[b1, b2] for b1 in (239, 187, 191, 13, 10, 254, 255, 0, 26, 43) for b2 in range(256)]
+        files += [[239, 187, 191], [239, 187, 191, 49], [255, 254, 49], [254, 255, 49], [43, 47, 118], [0, 0, 254, 255],
+                  [13, 10, 49], [49, 13, 10], [49, 26], [49, 0, 50], [239, 187], [187, 191, 239], [49, 239, 187, 191]]
+        files += [[rr.randrange(256) for _ in range(rr.randint(3, 12))] for _ in range(300)]
+        for lo in range(0, len(files), 256):
+            traces.append({"op": "bytes", "items": [file_item(bs, td) for bs in files[lo:lo + 256]]})
+            labels.append(("file-bytes", lo))
+
     occ = Counter(e["key"] for e in elems)
     parser_mods = set(syn["monadic"]) | set(syn["dyadic"]) | set(syn["triadic"])
     seen = Counter()
@@ -59,17 +110,37 @@ def main(tier):
         ctxs = []
         for pre, post in (("1", ""), ("", "1"), ("a", "a"), ("1", "1"), ("`s`", "`s`")):
             ctk, _, cerr = project.parse_text(pre + key + post)
-            ctxs.append({"pre": cps(pre), "post": cps(post), "toks": ctk or [], "loose": False,
+            ctxs.append({"pre": cps(pre), "post": cps(post), "toks": ctk or [], "vflag": False, "loose": False,
                          "err": cerr if (cerr or "").startswith("lex") else ""})
         for pre in ("k", "∆", "ø", "Þ", "¨", "1k", "`s`∆"):
             for post in ("", "1"):
                 ctk, _, cerr = project.parse_text(pre + key + post)
-                ctxs.append({"pre": cps(pre), "post": cps(post), "toks": ctk or [], "loose": True,
+                ctxs.append({"pre": cps(pre), "post": cps(post), "toks": ctk or [], "vflag": False, "loose": True,
                              "err": cerr if (cerr or "").startswith("lex") else ""})
+        for pre in ("→", "←", "1→", "→a←"):          # flag V: one-character variable names
+            try:
+                from vyxal.lexer import tokenise
+                ctk, cerr = project.toks(tokenise(pre + key, True)), ""
+            except Exception as e:  # noqa: BLE001
+                ctk, cerr = [], "lex:" + type(e).__name__
+            ctxs.append({"pre": cps(pre), "post": [], "toks": ctk, "loose": True, "vflag": True, "err": cerr})
         run = EL.elements.get(key, (None, -1))[1] if table == "elements" else -1
+        lam = -1
+        if table == "elements" and isinstance(run, int) and run >= 0 and key not in ("Q",):
+            # the element as a modifier operand: the lambda the transpiler wraps it in (lambda_wrap) has the element's arity
+            try:
+                import vyxal.transpile as T
+                from vyxal.lexer import tokenise
+                from vyxal.parse import parse
+                st = parse(tokenise(key))
+                if len(st) == 1:
+                    ar = T.lambda_wrap(st).arity
+                    lam = ar if isinstance(ar, int) and not isinstance(ar, bool) else -2
+            except BaseException:  # noqa: BLE001
+                lam = -1
         return {"op": "key", "key": cps(key), "table": table, "toks": tk or [], "tree": tr or [],
                 "err": err or "", "nocc": nocc, "arity": -1 if arity is None else arity,
-                "runarity": run if isinstance(run, int) else -1,
+                "runarity": run if isinstance(run, int) else -1, "lamarity": lam,
                 "inparser": key in parser_mods, "ctxs": ctxs}
 
     for e in elems:
